@@ -5,6 +5,7 @@ import numpy as np
 
 from harness import common as C
 from harness import selectors as S
+from harness import c02_feat as F
 
 ANCHORS = {"src/skmatter/_selection.py": [
     "_FPS._init_greedy_search", "_FPS._update_hausdorff", "_FPS._update_post_selection",
@@ -24,7 +25,7 @@ def gen_case(rng, quick):
     ncand = n if axis == 0 else d
     case = dict(kind=kind, axis=axis, X=rows, family=fam)
     if kind == "pcovfps":
-        case["y"] = S.gen_y(rng, n, 1)
+        case["y"] = S.gen_y(rng, n, rng.choice([1, 1, 2, 3]))
         case["a4"] = rng.randint(0, 3)
         case["init"] = rng.choice([rng.randrange(ncand), "random"])
     else:
@@ -39,6 +40,10 @@ def gen_case(rng, quick):
             case["init"] = "random"
     ninit = len(case["init"]) if isinstance(case["init"], list) else 1
     case["nts"] = rng.randint(ninit, ncand)
+    # history: a warm-started continuation of the same object on the same data (fit(warm_start=True)
+    # with a larger n_to_select): C02_warm_chain / C02_pcov_warm_chain
+    if rng.random() < 0.3 and case["nts"] < ncand:
+        case["nts2"] = rng.randint(case["nts"] + 1, ncand)
     # history: the same estimator object was fitted before on OTHER data of the same shape
     # (a cold fit must start from scratch; the model knows nothing of the earlier fit)
     # exact power-of-two rescaling of X and y (binary64 stays exact; catches absolute tolerances)
@@ -56,7 +61,7 @@ def run_impl(case):
     if case["kind"] == "pcovfps":
         extra["mixing"] = case["a4"] / 4.0
         scale = 4
-    stages = [dict(nts=case["nts"])]
+    stages = [dict(nts=case["nts"])] + ([dict(nts=case["nts2"])] if case.get("nts2") else [])
     sp = case.get("scale_pow", 0)
     f = 2.0 ** sp
 
@@ -67,7 +72,16 @@ def run_impl(case):
         pre = dict(pre, X=sc(pre["X"]), y=sc(pre["y"]))
     out, sel = S.run_chain(case["kind"], case["axis"], sc(case["X"]), sc(case["y"]), case["init"], stages,
                            extra=extra, scale=scale * 2.0 ** (-2 * sp), prefit=pre, data_scale=2.0 ** (-sp))
-    return out[0]
+    rec = out[0]
+    if case["init"] == "random" and "error" not in rec:
+        out2, _ = S.run_chain(case["kind"], case["axis"], sc(case["X"]), sc(case["y"]), case["init"], stages[:1],
+                              extra=extra, scale=scale * 2.0 ** (-2 * sp), data_scale=2.0 ** (-sp))
+        rec["sel_again"] = out2[0]["obs"]["sel"] if "obs" in out2[0] else ["raised"]
+    if len(out) > 1:
+        rec["warm"] = out[1]
+    elif case.get("nts2") and "error" not in rec:
+        rec["warm"] = dict(error="NoSecondStage", error_msg="warm-started stage did not run")
+    return rec
 
 
 def cands(case):
@@ -85,7 +99,11 @@ def case_coq(case, rec):
     else:
         inits = [init]
     y = "None" if case["y"] is None or case["axis"] == 1 else "(Some %s)" % C.zmat(case["y"])
-    stages = "[(NoThr, %d%%nat, %s)]" % (case["nts"], S.obs_coq(o, rec["stopped"]))
+    stages = "[(NoThr, %d%%nat, %s)" % (case["nts"], S.obs_coq(o, rec["stopped"]))
+    if case.get("nts2"):
+        w = rec["warm"]
+        stages += "; (NoThr, %d%%nat, %s)" % (case["nts2"], S.obs_coq(w["obs"], w["stopped"]))
+    stages += "]"
     if case["kind"] == "fps":
         return "fps_case_ok %s %s %s %s" % (C.zmat(cs), y, C.natlist(inits), stages)
     D = "(kernel4 %s %s %s)" % (C.Zl(case["a4"]), C.zmat(case["X"]), C.zmat(case["y"]))
@@ -107,6 +125,20 @@ def d2_table(case):
 
 
 def oracle(case, rec):
+    """C02 on every stage of the history (cold fit, then the warm-started continuation)."""
+    msg = oracle_stage(case, rec)
+    if msg is None and case.get("nts2"):
+        w = rec.get("warm") or dict(error="NoSecondStage", error_msg="")
+        if "error" not in w and w["obs"]["sel"][:len(rec["obs"]["sel"])] != rec["obs"]["sel"]:
+            return "warm-started continuation changed the earlier selections %s -> %s" % (
+                rec["obs"]["sel"], w["obs"]["sel"])
+        msg = oracle_stage(dict(case, nts=case["nts2"]), w)
+        if msg:
+            msg = "after the warm-started continuation: " + msg
+    return msg
+
+
+def oracle_stage(case, rec):
     """Direct statement of C02 on the implementation's outputs.  Returns None or a message."""
     if "error" in rec:
         return "fit raised %s: %s" % (rec["error"], rec.get("error_msg"))
@@ -116,6 +148,8 @@ def oracle(case, rec):
     n = len(D)
     init = case["init"]
     inits = [sel[0]] if init == "random" else (init if isinstance(init, list) else [init])
+    if init == "random" and rec.get("sel_again") is not None and rec["sel_again"] != sel:
+        return "initialize='random' is not reproducible: %s, then %s on a fresh object" % (sel, rec["sel_again"])
     if sel[:len(inits)] != list(inits):
         return "initial selections %s are not the requested %s" % (sel[:len(inits)], inits)
     if len(sel) != case["nts"]:
@@ -208,9 +242,125 @@ def finding_key(case, msg):
     return None
 
 
+MAX_FAMILY_REPORTS = 10      # replay files written per float family (a broken tree fails hundreds of cases)
+
+DIST_BITS = ["pcovr_distance_ differs from the model's cov_prog/kern_prog", "eigh oracle hypothesis violated",
+             "bit-exact loop replay on pcovr_distance_ differs"]
+
+
+def draw_check(ctx, stats, ncand, random_state, sel0, rep):
+    """initialize='random': the model is fed the observed first index; that it is numpy's
+    RandomState(random_state).randint(n_candidates) is checked here for EVERY such case."""
+    stats["random_draws_checked"] = stats.get("random_draws_checked", 0) + 1
+    msg = F.draw_check(ncand, random_state, sel0)
+    if msg:
+        stats["random_draws_wrong"] = stats.get("random_draws_wrong", 0) + 1
+        if stats["random_draws_wrong"] <= 3:
+            C.report_violation(ctx, "correspondence broken (model of _init_greedy_search): " + msg,
+                               dict(rep, correspondence="initialize='random' = check_random_state(random_state).randint(X.shape[axis])"),
+                               found_input=False)
+
+
+def dist_family(ctx, stats, dcases, dress, dsh, douts):
+    """verdicts of the distance-matrix family (harness/c02_feat.py, Model/PCovFPSDist.v)."""
+    st = dict(cases=len(dcases), axis1=0, wide=0, tall=0, square=0, rank_deficient=0, mixing0=0, y2d=0, y1d=0,
+              random_init=0, prefit_history=0, warm_continued=0, matrix_compared=0, matrix_agree=0,
+              skipped_matrix={}, loop_replayed=0, errors=0, matrix_rel_dev_max=0.0, hypothesis_residual_max=[0.0, 0.0, 0.0])
+    codes, devs = {}, {}
+    for (body, ids), (rc, out) in zip(dsh.shards, douts):
+        lists = C.parse_nat_lists(out)
+        dv = F.parse_float_lists(out)
+        if rc != 0 or len(lists) != 1 or len(lists[0]) != len(ids) or dv is None or len(dv) != len(ids):
+            C.report_violation(ctx, "distance-matrix shard did not evaluate", dict(coq_output=out[-1500:]), found_input=False)
+            continue
+        for cid, code, d in zip(ids, lists[0], dv):
+            codes[cid], devs[cid] = code, d
+    for i, (c, r) in enumerate(zip(dcases, dress)):
+        n, m = len(c["X"]), len(c["X"][0])
+        st["axis1"] += c["axis"] == 1
+        st["wide" if n < m else "tall" if n > m else "square"] += 1
+        st["rank_deficient"] += c["struct"] in ("rankdef", "dups")
+        st["mixing0"] += c["mixing"] == 0
+        st["y2d"] += c["p"] > 1
+        st["y1d"] += bool(c.get("y1d"))
+        st["random_init"] += c["init"] == "random"
+        st["prefit_history"] += "prefit" in c
+        st["warm_continued"] += bool(c.get("warm_from"))
+        rep = dict(case=c, observed=r, kind="dist", correspondence="dc_code (Model/PCovFPSDist.v)")
+        if "error" in r:
+            st["errors"] += 1
+            C.report_violation(ctx, "C02 fails on the implementation (PCov-FPS, float data): " + F.dist_oracle(c, r),
+                               rep, found_input=True)
+            continue
+        if i not in codes:
+            continue
+        _, _, g = F.hints(c)
+        code = codes[i]
+        st["loop_replayed"] += 1
+        if g is not None:
+            st["skipped_matrix"][g] = st["skipped_matrix"].get(g, 0) + 1
+            code &= 4                      # ill-conditioned X^T X: only the loop replay is compared
+        else:
+            st["matrix_compared"] += 1
+            st["matrix_agree"] += not (code & 1)
+            d = devs[i]
+            if not (code & 1):
+                st["matrix_rel_dev_max"] = max(st["matrix_rel_dev_max"], d[0] / max(d[1], 1e-300))
+            for k, x in enumerate(d[2:5]):
+                st["hypothesis_residual_max"][k] = max(st["hypothesis_residual_max"][k], x)
+        if c["init"] == "random":
+            draw_check(ctx, stats, m if c["axis"] == 1 else n, c.get("random_state", 0), r["sel"][0], rep)
+        msg = F.dist_oracle(c, r)          # the brute-force oracle runs on EVERY case of this family
+        if msg and not code:
+            st["oracle_only"] = st.get("oracle_only", 0) + 1
+            if st["oracle_only"] <= MAX_FAMILY_REPORTS:
+                C.report_violation(ctx, "C02 fails on the implementation (PCov-FPS, %s direction, float data): %s"
+                                   % ("feature" if c["axis"] == 1 else "sample", msg), rep, found_input=True)
+        if code:
+            st["disagreeing"] = st.get("disagreeing", 0) + 1
+            if st["disagreeing"] > MAX_FAMILY_REPORTS:
+                continue
+            what = [DIST_BITS[k] for k in range(3) if code & (1 << k)]
+            rep["model_disagreement"] = what
+            rep["deviations"] = devs[i]
+            if msg:
+                C.report_violation(ctx, "C02 fails on the implementation (PCov-FPS, %s direction, float data): %s"
+                                   % ("feature" if c["axis"] == 1 else "sample", msg), rep, found_input=True)
+            else:
+                C.report_violation(ctx, "correspondence broken (PCov-FPS on float data): " + "; ".join(what),
+                                   rep, found_input=False)
+    stats["dist_family"] = st
+
+
+def fps_float_family(ctx, stats):
+    """plain FPS on float data (float64 / float32 / Fortran order, both directions, warm continuation):
+    brute-force oracle only."""
+    nf = 600 if ctx.quick else 6000
+    st = dict(cases=nf, axis1=0, float32=0, fortran=0, warm_continued=0, multi_init=0, random_init=0, failures=0)
+    for _ in range(nf):
+        c = F.gen_fpsfloat_case(ctx.rng, ctx.quick)
+        r = F.run_fpsfloat_impl(c)
+        st["axis1"] += c["axis"] == 1
+        st["float32"] += c["dtype"] == "float32"
+        st["fortran"] += c["dtype"] == "fortran"
+        st["warm_continued"] += bool(c.get("warm_from"))
+        st["multi_init"] += isinstance(c["init"], list) and len(c["init"]) > 1
+        st["random_init"] += c["init"] == "random"
+        if c["init"] == "random" and "error" not in r:
+            draw_check(ctx, stats, len(c["X"]) if c["axis"] == 0 else len(c["X"][0]), 0, r["sel"][0],
+                       dict(case=c, observed=r, kind="fpsfloat"))
+        msg = F.fpsfloat_oracle(c, r)
+        if msg:
+            st["failures"] += 1
+            if st["failures"] <= MAX_FAMILY_REPORTS:
+                C.report_violation(ctx, "C02 fails on the implementation (FPS, float data): " + msg,
+                                   dict(case=c, observed=r, kind="fpsfloat"), found_input=True)
+    stats["fps_float_family"] = st
+
+
 def run(ctx):
-    po = C.proof_obligations(ctx.prop, extra_targets=["Model/FPSFloat.vo"])
-    ncases = 600 if ctx.quick else 12000
+    po = C.proof_obligations(ctx.prop, extra_targets=["Model/FPSFloat.vo", "Model/PCovFPSDist.vo"])
+    ncases = 900 if ctx.quick else 12000
     cases, recs = [], []
     stats = dict(kinds={}, families={}, ties=0, multi_init=0, random_init=0, errors=0)
     for _ in range(ncases):
@@ -226,6 +376,8 @@ def run(ctx):
         stats["errors"] += "error" in r
         stats["scaled"] = stats.get("scaled", 0) + (c.get("scale_pow", 0) != 0)
         stats["prefit_history"] = stats.get("prefit_history", 0) + ("prefit" in c)
+        stats["warm_continued"] = stats.get("warm_continued", 0) + bool(c.get("nts2"))
+        stats["pcov_multi_target"] = stats.get("pcov_multi_target", 0) + (c["kind"] == "pcovfps" and len(c["y"][0]) > 1)
     # distinct / non-trivial: >= 3 steps, and a tie or a running-minimum update occurred
     seen, nontrivial = set(), 0
     for c, r in zip(cases, recs):
@@ -245,7 +397,7 @@ def run(ctx):
         seen.add(h)
     # correspondence inside Coq
     shards, per = [], 300
-    idx = [i for i, r in enumerate(recs) if "error" not in r]
+    idx = [i for i, r in enumerate(recs) if "error" not in r and "error" not in (r.get("warm") or {})]
     groups = [idx[i:i + per] for i in range(0, len(idx), per)]
     for g in groups:
         body = ";\n ".join(case_coq(cases[i], recs[i]) for i in g)
@@ -253,7 +405,7 @@ def run(ctx):
                       "Definition verdicts : list bool := [\n %s].\n"
                       "Eval vm_compute in (failing verdicts).\n" % body)
     # float replay family (PCov-FPS loop on the implementation's own pcovr_distance_, both directions)
-    fcases = [gen_float_case(ctx.rng, ctx.quick) for _ in range(150 if ctx.quick else 2000)]
+    fcases = [gen_float_case(ctx.rng, ctx.quick) for _ in range(200 if ctx.quick else 2000)]
     fress = [run_float_impl(c) for c in fcases]
     fper = 150
     fgroups = [list(range(i, min(i + fper, len(fcases)))) for i in range(0, len(fcases), fper)]
@@ -265,7 +417,22 @@ def run(ctx):
                       "Eval vm_compute in (failing verdicts).\n" % body)
     stats["float_replay_cases"] = len(fcases)
     stats["float_replay_axis1"] = sum(c["axis"] == 1 for c in fcases)
+    # distance-matrix family: pcovr_distance_ against cov_prog / kern_prog, histories, loop replay
+    ndist = 400 if ctx.quick else 4000
+    dcases = [F.gen_dist_case(ctx.rng, ctx.quick, shape=F.SHAPES[i % 3] if i < 30 else None) for i in range(ndist)]
+    dress = [F.run_dist_impl(c) for c in dcases]
+    dsh = F.Shards()
+    for i, (c, r) in enumerate(zip(dcases, dress)):
+        if "error" not in r:
+            dsh.add(i, c, r)
+    dsh.flush()
+    n_model_shards = len(shards)
+    shards += [b for b, _ in dsh.shards]
     outs = C.run_shards(ctx.prop, shards)
+    douts = outs[n_model_shards:]
+    outs = outs[:n_model_shards]
+    dist_family(ctx, stats, dcases, dress, dsh, douts)
+    fps_float_family(ctx, stats)
     fouts = outs[len(groups):]
     outs = outs[:len(groups)]
     for g, (rc, out) in zip(fgroups, fouts):
@@ -292,8 +459,12 @@ def run(ctx):
         mismatched += [g[k] for k in lists[0]]
     # verdicts
     for i, r in enumerate(recs):
-        if "error" in r:
+        if "error" in r or "error" in (r.get("warm") or {}):
             mismatched.append(i)
+        elif cases[i]["init"] == "random":
+            if r.get("sel_again") != r["obs"]["sel"]:
+                mismatched.append(i)
+            draw_check(ctx, stats, len(cands(cases[i])), 0, r["obs"]["sel"][0], dict(case=cases[i], observed=r))
     n_search = 0
     for i in sorted(set(mismatched)):
         msg = oracle(cases[i], recs[i])
@@ -328,6 +499,14 @@ def replay(ctx, obj):
     c = obj["case"]
     if obj.get("kind") == "float_replay":
         msg = float_oracle(c, run_float_impl(c))
+        print("replay:", msg or "property holds on this input now")
+        return 1 if msg else 0
+    if obj.get("kind") == "dist":
+        msg = F.dist_oracle(c, F.run_dist_impl(c))
+        print("replay:", msg or "property holds on this input now")
+        return 1 if msg else 0
+    if obj.get("kind") == "fpsfloat":
+        msg = F.fpsfloat_oracle(c, F.run_fpsfloat_impl(c))
         print("replay:", msg or "property holds on this input now")
         return 1 if msg else 0
     r = run_impl(c)
